@@ -58,6 +58,8 @@ PAD0 = [0, 1, 126, 127, 128, 16383, 16384]
 BOUNDARY_D = [127 + 2, 128 + 3, 16383 + 3, 16384 + 4, 2097151 + 4, 2097152 + 5]
 I32_MIN, I32_MAX = -2 ** 31, 2 ** 31 - 1
 
+WIRE_OVER = "#" + "wire-over".encode().hex()
+
 PROTOCOLS = {1: "connect", 2: "grpc", 3: "grpc-web"}
 COMPRESSIONS = [1, 2, 3, 4, 5, 6]
 STREAMS = [1, 2, 3, 4, 5]
@@ -111,6 +113,14 @@ class C19(Prop):
         ms = case[1]
         got = re.findall(r"\((-?\d+) (-?\d+) (-?\d+) (-?\d+)\)", res)
         return any(int(g[1]) != m[3] for g, m in zip(got, ms))
+
+    def classify(self, case, g, m):
+        # live verdict "rejected" for a message whose uncompressed size is within the limit while its
+        # compressed form is above it (the Go harness measures both and tags exactly that situation)
+        if case[0] == "c19.sharp" and g and m and WIRE_OVER in g and m.rstrip(")").endswith(" 1") and len(case) == 8 \
+                and case[5] != 1 and case[2] <= 0:
+            return "wire-size-also-limited"
+        return None
 
     def describe(self, case, g, m):
         if case[0] == "c19.sharp":
@@ -223,6 +233,10 @@ class C19(Prop):
             yield ["c19.expand", ms, ds]
 
         # ---- live sharpness ----
+        # case: side off httpVersion protocol compression streamType fill
+        #   side 0: request against the server limit, reference client -> reference server
+        #   side 1: response against the client limit, exact-size stub handler -> reference client
+        #   fill 1: the bulk of the sized message is incompressible (compressed form above the limit at off 0)
         offs = (-1, 0, 1)
         if quick:
             cfgs = []
@@ -231,20 +245,28 @@ class C19(Prop):
             i = 0
             for st in STREAMS:                      # every stream type, protocols and compressions rotate
                 for p in rng.sample([1, 2, 3], 2):
-                    cfgs.append((0, 2, p, comps[i % 6], st))
+                    cfgs.append((0, 2, p, comps[i % 6], st, 0))
                     i += 1
-            cfgs.append((0, 1, 1, comps[i % 6], 1))                # HTTP/1.1 connect unary
-            cfgs.append((0, 1, 3, comps[(i + 1) % 6], 3))          # HTTP/1.1 grpc-web server stream
-            for p in (1, 2, 3):                                    # client side
-                cfgs.append((1, 2, p, comps[(i + p) % 6], 3))
-                cfgs.append((1, 2, p, 1 if comps[(i + p) % 6] != 1 else 2, 3))
+            cfgs.append((0, 1, 1, comps[i % 6], 1, 0))                # HTTP/1.1 connect unary
+            cfgs.append((0, 1, 3, comps[(i + 1) % 6], 3, 0))          # HTTP/1.1 grpc-web server stream
+            for p in (1, 2, 3):                                       # client side
+                cfgs.append((1, 2, p, comps[(i + p) % 6], 3, 0))
+                cfgs.append((1, 2, p, comps[(i + p + 3) % 6], 1, 0))
+            cfgs.append((1, 1, 1, comps[(i + 2) % 6], 1, 0))           # HTTP/1.1 connect unary response
+            # incompressible content: without compression the limit is just as sharp; with one, the compressed
+            # form of a message of exactly the limit is above the limit (known finding wire-size-also-limited)
+            for side, st in ((0, rng.choice(STREAMS)), (1, rng.choice([1, 3]))):
+                p = rng.choice([1, 2, 3])
+                cfgs.append((side, 2, p, 1, st, 1))
+                cfgs.append((side, 2, p, rng.choice(COMPRESSIONS[1:]), st, 1))
         else:
-            cfgs = [(0, 2, p, c, st) for st in STREAMS for p in (1, 2, 3) for c in COMPRESSIONS]
-            cfgs += [(0, 1, p, c, st) for st in (1, 2, 3) for p in (1, 3) for c in COMPRESSIONS]
-            cfgs += [(1, hv, p, c, 3) for hv in (1, 2) for p in (1, 2, 3) for c in COMPRESSIONS if not (hv == 1 and p == 2)]
-        for side, hv, p, c, st in cfgs:
+            cfgs = [(0, 2, p, c, st, f) for st in STREAMS for p in (1, 2, 3) for c in COMPRESSIONS for f in (0, 1)]
+            cfgs += [(0, 1, p, c, st, f) for st in (1, 2, 3, 4) for p in (1, 3) for c in COMPRESSIONS for f in (0, 1)]
+            cfgs += [(1, hv, p, c, st, f) for hv in (1, 2) for p in (1, 2, 3) for c in COMPRESSIONS for st in (1, 3)
+                     for f in (0, 1) if not (hv == 1 and p == 2)]
+        for side, hv, p, c, st, f in cfgs:
             for off in offs + ((-2, 2, 10) if not quick else ()):
-                yield ["c19.sharp", side, off, hv, p, c, st]
+                yield ["c19.sharp", side, off, hv, p, c, st, f]
 
 
 PROP = C19()
